@@ -75,6 +75,10 @@ impl Replayer {
         if g.current_member_index() as u64 != u(post, "leaf") {
             viol!(self, ["C01", "C07"], "proj-leaf", "{party}: own leaf {} expected {}", g.current_member_index(), u(post, "leaf"));
         }
+        let ext_have = g.context().extensions.iter().find(|e| e.extension_type == GCE_EXT).map(|e| u16::from_be_bytes([e.extension_data[0], e.extension_data[1]]) as u64).unwrap_or(0);
+        if ext_have != u(post, "ext") {
+            viol!(self, ["C01", "C10"], "proj-ext", "{party}: group context extension version {ext_have}, expected {}", u(post, "ext"));
+        }
         if g.has_pending_commit() != (u(post, "pend") != 0) {
             viol!(self, ["C11"], "proj-pending", "{party}: has_pending_commit {} expected pend={}", g.has_pending_commit(), u(post, "pend"));
         }
@@ -284,6 +288,10 @@ impl Replayer {
         if want == got {
             return true;
         }
+        // which of several violated RFC 12.2 rules is reported first is not part of any property
+        if want.starts_with("err:rule") && got.starts_with("err:rule") {
+            return true;
+        }
         let props: &[&'static str] = match a {
             "Commit" => &["C10", "C11", "C01"],
             "DeliverCommit" => &["C01", "C10", "C11", "C02"],
@@ -310,7 +318,14 @@ impl Replayer {
                     KpBackend::Mem(m) => m.key_packages().into_iter().map(|x| x.0).collect(),
                     _ => vec![],
                 };
-                match party.client.generate_key_package_message(Default::default(), Default::default(), None) {
+                let bad = s(&args, "bad").to_string();
+                let gen = match bad.as_str() {
+                    // expired: lifetime starting in the year 2000; cred: an identity every identity provider rejects
+                    "expired" => self.w.bad_clients["bad-expired"].generate_key_package_message(Default::default(), Default::default(), Some(mls_rs::time::MlsTime::from(946_684_800u64))),
+                    "cred" => self.w.bad_clients["rejected"].generate_key_package_message(Default::default(), Default::default(), None),
+                    _ => party.client.generate_key_package_message(Default::default(), Default::default(), None),
+                };
+                match gen {
                     Ok(m) => {
                         let store_id = match &party.kp.inner {
                             KpBackend::Mem(mm) => mm.key_packages().into_iter().map(|x| x.0).find(|i| !ids_before.contains(i)).unwrap_or_default(),
@@ -331,7 +346,8 @@ impl Replayer {
             }
             "Propose" => {
                 let kind = s(&args, "kind").to_string();
-                let kp = args.get("kp").and_then(|k| k.as_u64()).map(|i| self.w.kps[i as usize - 1].msg.clone());
+                let kp = args.get("kp").and_then(|k| k.as_u64()).filter(|i| *i > 0).map(|i| self.w.kps[i as usize - 1].msg.clone());
+                let suite = self.w.suite;
                 let party = self.w.parties.get_mut(&p).unwrap();
                 let g = party.group.as_mut().unwrap();
                 let before_refs: Vec<Vec<u8>> = g.get_cached_proposals().iter().map(|c| c.proposal_ref().as_slice().to_vec()).collect();
@@ -339,6 +355,10 @@ impl Replayer {
                     "add" => g.propose_add(kp.unwrap(), vec![]),
                     "rem" => g.propose_remove(u(&args, "target") as u32, vec![]),
                     "upd" => g.propose_update(vec![]),
+                    "psk" => g.propose_external_psk(mls_rs::psk::ExternalPskId::new(s(&args, "id").as_bytes().to_vec()), vec![]),
+                    "rpsk" => g.propose_resumption_psk(u(&args, "pe"), vec![]),
+                    "gce" => g.propose_group_context_extensions(gce_list(u(&args, "ver")), vec![]),
+                    "reinit" => g.propose_reinit(Some(b"verif-group-next".to_vec()), mls_rs::ProtocolVersion::MLS_10, suite, Default::default(), vec![]),
                     k => panic!("unknown proposal kind {k}"),
                 };
                 match r {
@@ -675,6 +695,7 @@ impl Replayer {
             .map(|it| if s(it, "kind") == "add" { Some(self.w.kps[u(it, "kp") as usize - 1].msg.clone()) } else { None })
             .collect();
         let mark = self.w.rec.len();
+        let suite = self.w.suite;
         let party = self.w.parties.get_mut(p).unwrap();
         let g = party.group.as_mut().unwrap();
         let base_epoch = g.current_epoch();
@@ -682,6 +703,10 @@ impl Replayer {
             let mut b = g.commit_builder();
             for (it, kp) in byval.iter().zip(kps.into_iter()) {
                 b = match s(it, "kind") {
+                    "psk" => b.add_external_psk(mls_rs::psk::ExternalPskId::new(s(it, "id").as_bytes().to_vec()))?,
+                    "rpsk" => b.add_resumption_psk(u(it, "epoch"))?,
+                    "gce" => b.set_group_context_ext(gce_list(u(it, "ver")))?,
+                    "reinit" => b.reinit(Some(b"verif-group-next".to_vec()), mls_rs::ProtocolVersion::MLS_10, suite, Default::default())?,
                     "add" => b.add_member(kp.unwrap())?,
                     "rem" => b.remove_member(u(it, "target") as u32).map_err(|e| match e {
                         mls_rs::error::MlsError::ExpectedNode | mls_rs::error::MlsError::InvalidNodeIndex(_) => mls_rs::error::MlsError::RemovingNonExistingMember,
@@ -816,6 +841,14 @@ impl Replayer {
     }
 }
 
+pub const GCE_EXT: mls_rs::extension::ExtensionType = mls_rs::extension::ExtensionType::new(0xF0F0);
+
+pub fn gce_list(ver: u64) -> mls_rs::ExtensionList {
+    let mut l = mls_rs::ExtensionList::new();
+    l.set(mls_rs::Extension::new(GCE_EXT, (ver as u16).to_be_bytes().to_vec()));
+    l
+}
+
 fn find(h: &[u8], n: &[u8]) -> bool {
     h.windows(n.len()).any(|w| w == n)
 }
@@ -833,6 +866,19 @@ pub fn run_behaviour(b: &Value, opts: Opts, deep: bool, faults: bool) -> Outcome
         Ok(w) => w,
         Err(e) => panic!("world: {e}"),
     };
+    // the application's PSK stores as the behaviour fixes them (C18)
+    if let Some(ps) = cfg.get("psk").and_then(|p| p.as_object()) {
+        for (party, ids) in ps {
+            if let (Some(p), Some(ids)) = (w.parties.get(party), ids.as_object()) {
+                for (id, val) in ids {
+                    let v = val.as_str().unwrap_or("none");
+                    if v != "none" {
+                        p.psk.put(id.as_bytes(), format!("psk-value-{v}").as_bytes());
+                    }
+                }
+            }
+        }
+    }
     let mut r = Replayer::new(w, deep);
     r.faults = faults;
     r.w.rec.set(true, false);
